@@ -251,7 +251,18 @@ func (box *BoxFields) AllChildren() []Box {
 
 // ContainingBlock implements an interface required for layout.
 func (box *BoxFields) ContainingBlock() (width, height pr.MaybeFloat) {
-	return box.Width, box.Height
+	height = box.Height
+	if h, ok := height.(pr.Float); ok {
+		// percentages of the children refer to the used height, after min-height and max-height
+		if max, ok := box.MaxHeight.(pr.Float); ok && h > max {
+			h = max
+		}
+		if min, ok := box.MinHeight.(pr.Float); ok && h < min {
+			h = min
+		}
+		height = h
+	}
+	return box.Width, height
 }
 
 // Return whether this link should be stored as a PDF attachment
